@@ -472,17 +472,29 @@ pub fn derive(input: &Input) -> TokenStream {
                 #[doc = #vec_name_str]
                 /// ::resize()`](https://doc.rust-lang.org/std/vec/struct.Vec.html#method.resize).
                 pub fn resize(&mut self, new_len: usize, value: #name) {
-                    #(
-                        self.#fields_names.resize(new_len, value.#fields_names);
-                    )*
+                    let len = self.len();
+                    if new_len > len {
+                        // whole elements are cloned and pushed one at a time, so
+                        // that a panic in `Clone` can not leave the fields
+                        // with different lengths
+                        self.reserve(new_len - len);
+                        for _ in len + 1..new_len {
+                            self.push(value.as_ref().to_owned());
+                        }
+                        self.push(value);
+                    } else {
+                        self.truncate(new_len);
+                    }
                 }
             }
 
             impl ::soa_derive::SoAAppendVec<#name> for #vec_name {
                 fn extend_from_slice(&mut self, other: Self::Slice<'_>) {
-                    #(
-                        self.#fields_names.extend_from_slice(other.#fields_names);
-                    )*
+                    // element by element, see `resize`
+                    self.reserve(other.len());
+                    for item in other.iter() {
+                        self.push(item.to_owned());
+                    }
                 }
             }
         });
